@@ -1176,6 +1176,12 @@ def _infer_expr_type(
                 )
             )
 
+        if fname in {"abs", "min", "max"} and arg_types:
+            if "float" in arg_types:
+                return "float"
+            if all(t == "bool" for t in arg_types) and fname != "abs":
+                return "bool"
+            return "int"
         if fname in _BUILTIN_CALL_RETURN_TYPES:
             return _BUILTIN_CALL_RETURN_TYPES[fname]
 
